@@ -64,7 +64,7 @@ class World(object):
     pass
 
 
-def setup(v, resumed=False):
+def setup(v, resumed=False, no_cb=""):
     w = World()
     w.hb = {"c": [], "s": []}
     ckw = dict(minVersion=sc.VER[v], maxVersion=sc.VER[v],
@@ -74,6 +74,12 @@ def setup(v, resumed=False):
                ticketKeys=[bytearray(b"k" * 32)],
                heartbeat_response_callback=lambda m: w.hb["s"].append(
                    bytes(m.payload)))
+    # a side without a response callback never sends requests itself, but
+    # still has to answer the peer's (the default configuration)
+    if "c" in no_cb:
+        del ckw["heartbeat_response_callback"]
+    if "s" in no_cb:
+        del skw["heartbeat_response_callback"]
     client = {"settings": sc.mk_settings(**ckw), "cred": "c_rsa"}
     server = {"cred": "rsa", "settings": sc.mk_settings(**skw)}
     p = sc.connect(client, server)
@@ -145,7 +151,9 @@ def fifo_check(w, side, got, where):
 
 def check(case):
     DET.reseed("C16", case.get("salt", 0), case["v"])
-    w = setup(case["v"], case.get("resumed", False))
+    w = setup(case["v"], case.get("resumed", False), case.get("no_cb", ""))
+    if case.get("no_cb"):
+        w.labels.append("no-heartbeat-callback:" + case["no_cb"])
     if case.get("resumed"):
         w.labels.append("resumed-connection")
     p = w.p
@@ -230,6 +238,8 @@ def check(case):
             conn = p.conn(side)
             if not (conn.heartbeat_supported and conn.heartbeat_can_send):
                 continue
+            if side in case.get("no_cb", ""):
+                continue        # (nobody would see the answer)
             payload = prg(b"hb%d" % i, n)
             outs, _ = drive({side: conn.write_heartbeat(
                 bytearray(payload), pad)}, p.link, on_stall="leave")
@@ -552,7 +562,8 @@ def cases(draw, tier):
         ops.append(["fin", draw(st.sampled_from("cs")),
                     draw(st.sampled_from([0, 1, 300, 20000]))])
     return {"v": v, "ops": ops, "salt": draw(st.integers(0, 3)),
-            "resumed": draw(st.integers(0, 3)) == 0}
+            "resumed": draw(st.integers(0, 3)) == 0,
+            "no_cb": draw(st.sampled_from(["", "", "c", "s"]))}
 
 
 def strategy(tier):
@@ -578,6 +589,12 @@ def explicit(tier, seed):
                        ["w", "s", 4], ["r", "s"], ["r", "c"], ["r", "s"],
                        ["ku", "c", True], ["pha"], ["w", "c", 9], ["r", "s"],
                        ["r", "c"]]}
+    for v in ("tls13", "tls12"):
+        for no_cb in "cs":
+            yield {"v": v, "no_cb": no_cb,
+                   "ops": [["w", "c", 3], ["hb", "c", 5, 16],
+                           ["hb", "s", 7, 16], ["w", "s", 4], ["r", "s"],
+                           ["r", "c"], ["r", "s"], ["r", "c"]]}
     # several authentication requests outstanding, with and without the
     # offer of certificate compression, in every order
     for a, b in ((0, 1), (1, 0), (1, 1), (0, 0)):
